@@ -1,6 +1,7 @@
 package c08
 
 import (
+	"bufio"
 	"bytes"
 	"encoding/hex"
 	"fmt"
@@ -119,66 +120,95 @@ func register(ns ...*niInst) {
 	}
 }
 
-// childMain executes one isolated operation: "ni|<inst>|<compiler>" (edited proof hex on stdin) or
-// "zk|<inst>|<msg>|<edit index>". It prints one line C08CHILD:<ACCEPT|REJECT|PANIC>:detail and exits 0; an
-// unrecoverable panic in a library goroutine makes the runtime exit with status 2.
+// childMain executes a batch of isolated operations in order:
+//
+//	"ni|<inst>|<compiler>"        one edited proof per stdin line (hex)
+//	"ia|<name>|<msg>|<i1,i2,..>"  interactive runs with edit i_k applied to message <msg>
+//
+// and prints one line "C08CHILD:<job>:<ACCEPT|REJECT|PANIC>:<detail>" per job. An unrecoverable panic in a library
+// goroutine makes the Go runtime kill the process (exit status 2) with its crash report on stderr; the parent then
+// attributes the crash to the first job without a result line and resumes the batch after it.
 func childMain(spec string) int {
 	childSeed, _ = strconv.ParseInt(os.Getenv("VERIF_C08_SEED"), 10, 64)
 	parts := strings.Split(spec, "|")
+	careful := os.Getenv("VERIF_C08_CAREFUL") != ""
+	report := func(job int, acc bool, site, detail string) {
+		if careful {
+			// errgroup workers run "defer done()" while a panic unwinds, so Wait (and Verify) can return before the
+			// runtime has killed the process; give a dying process time to die before a result is reported
+			time.Sleep(2 * time.Second)
+		}
+		switch {
+		case site != "":
+			fmt.Printf("C08CHILD:%d:PANIC:%s|%s\n", job, site, oneLine(detail))
+		case acc:
+			fmt.Printf("C08CHILD:%d:ACCEPT:\n", job)
+		default:
+			fmt.Printf("C08CHILD:%d:REJECT:%s\n", job, oneLine(detail))
+		}
+	}
 	if parts[0] == "ia" {
 		if heavyByName(parts[1]) == nil {
 			if strings.HasPrefix(parts[1], "lp") {
 				interactiveInsts()
-			} else {
+			} else if ecByName(parts[1]) == nil {
 				buildPlan()
 			}
 		}
 		ia := iaRegistry[parts[1]]
 		if ia == nil {
-			fmt.Println("C08CHILD:HARNESS:unknown interactive protocol " + parts[1])
+			fmt.Println("C08CHILD:-1:HARNESS:unknown interactive protocol " + parts[1])
 			return 3
 		}
 		m, _ := strconv.Atoi(parts[2])
-		idx, _ := strconv.Atoi(parts[3])
-		acc, st := ia.child(m, idx)
-		switch {
-		case strings.HasPrefix(st, "PANIC@"):
-			fmt.Println("C08CHILD:PANIC:" + oneLine(strings.TrimPrefix(st, "PANIC@")))
-		case strings.HasPrefix(st, "HARNESS"):
-			fmt.Println("C08CHILD:" + st)
-			return 3
-		case acc:
-			fmt.Println("C08CHILD:ACCEPT:")
-		default:
-			fmt.Println("C08CHILD:REJECT:" + oneLine(st))
+		none := func(int, []byte) []byte { return nil }
+		_, _, msgs := ia.run(none, false)
+		eds := enumerateEdits(msgs[m], ia.mode, ia.idx)
+		for job, f := range strings.Split(parts[3], ",") {
+			idx, _ := strconv.Atoi(f)
+			if idx >= len(eds) {
+				fmt.Println("C08CHILD:-1:HARNESS:edit index out of range")
+				return 3
+			}
+			acc, st, _ := ia.run(func(msg int, raw []byte) []byte {
+				if msg != m {
+					return nil
+				}
+				return eds[idx].gen(newWalker(raw))
+			}, false)
+			if strings.HasPrefix(st, "PANIC@") {
+				site, rest, _ := strings.Cut(strings.TrimPrefix(st, "PANIC@"), "|")
+				report(job, false, site, rest)
+			} else {
+				report(job, acc, "", st)
+			}
 		}
 		return 0
 	}
-	if heavyByName(parts[1]) == nil {
+	if heavyByName(parts[1]) == nil && ecByName(parts[1]) == nil {
 		buildPlan()
 	}
 	n := registry[parts[1]]
 	if n == nil {
-		fmt.Println("C08CHILD:HARNESS:unknown instance " + parts[1])
+		fmt.Println("C08CHILD:-1:HARNESS:unknown instance " + parts[1])
 		return 3
 	}
-	switch parts[0] {
-	case "ni":
-		var hx string
-		_, _ = fmt.Fscan(os.Stdin, &hx)
-		proof, err := hex.DecodeString(hx)
+	sc := bufio.NewScanner(os.Stdin)
+	sc.Buffer(make([]byte, 1<<20), 1<<28)
+	for job := 0; sc.Scan(); job++ {
+		proof, err := hex.DecodeString(strings.TrimSpace(sc.Text()))
 		if err != nil {
-			fmt.Println("C08CHILD:HARNESS:bad hex")
+			fmt.Println("C08CHILD:-1:HARNESS:bad hex")
 			return 3
 		}
 		verr, site := safeVerify(n, compiler.Name(parts[2]), verifierCtx().build(), stmtSel{}, proof)
 		switch {
 		case site != "":
-			fmt.Println("C08CHILD:PANIC:" + site + "|" + oneLine(verr.Error()))
+			report(job, false, site, verr.Error())
 		case verr != nil:
-			fmt.Println("C08CHILD:REJECT:" + oneLine(verr.Error()))
+			report(job, false, "", verr.Error())
 		default:
-			fmt.Println("C08CHILD:ACCEPT:")
+			report(job, true, "", "")
 		}
 	}
 	return 0
@@ -202,13 +232,15 @@ type childResult struct {
 }
 
 var (
-	childSlots   = make(chan struct{}, 8)
+	childSlots   = make(chan struct{}, 12)
 	childCount   atomic.Int64
+	childJobs    atomic.Int64
 	childNanos   atomic.Int64
 	childCrashes atomic.Int64
 )
 
-func runChild(spec string, stdin []byte) childResult {
+// spawn runs one child over the given jobs and returns the results it printed plus its combined output.
+func spawn(spec string, stdin []byte, careful bool) (map[int]childResult, string) {
 	childSlots <- struct{}{}
 	t0 := time.Now()
 	defer func() {
@@ -218,6 +250,9 @@ func runChild(spec string, stdin []byte) childResult {
 	}()
 	cmd := exec.Command(os.Args[0], "-test.run", "^TestNothing$")
 	cmd.Env = append(os.Environ(), "VERIF_C08_CHILD="+spec, fmt.Sprintf("VERIF_C08_SEED=%d", engine.Seed()), "VERIF_TIER="+engine.Tier())
+	if careful {
+		cmd.Env = append(cmd.Env, "VERIF_C08_CAREFUL=1")
+	}
 	cmd.Stdin = bytes.NewReader(stdin)
 	var out bytes.Buffer
 	cmd.Stdout, cmd.Stderr = &out, &out
@@ -228,37 +263,85 @@ func runChild(spec string, stdin []byte) childResult {
 	go func() { done <- cmd.Wait() }()
 	select {
 	case <-done:
-	case <-time.After(5 * time.Minute):
+	case <-time.After(30 * time.Minute):
 		_ = cmd.Process.Kill()
 		panic(engine.HarnessError{Msg: "child process timed out: " + spec})
 	}
 	s := out.String()
-	if i := strings.Index(s, "C08CHILD:"); i >= 0 {
-		line := s[i+len("C08CHILD:"):]
-		if j := strings.IndexByte(line, '\n'); j >= 0 {
-			line = line[:j]
+	res := map[int]childResult{}
+	for _, line := range strings.Split(s, "\n") {
+		if !strings.HasPrefix(line, "C08CHILD:") {
+			continue
 		}
-		k := strings.IndexByte(line, ':')
-		if k < 0 {
-			k = len(line)
+		f := strings.SplitN(strings.TrimPrefix(line, "C08CHILD:"), ":", 3)
+		if len(f) < 3 {
+			continue
 		}
-		oc := line[:k]
-		if oc == "HARNESS" {
+		if f[1] == "HARNESS" {
 			panic(engine.HarnessError{Msg: "child: " + line})
 		}
-		detail := strings.TrimPrefix(line[k:], ":")
-		if oc == "PANIC" {
-			site, rest, _ := strings.Cut(detail, "|")
-			return childResult{oc, site, rest}
+		job, _ := strconv.Atoi(f[0])
+		if f[1] == "PANIC" {
+			site, rest, _ := strings.Cut(f[2], "|")
+			res[job] = childResult{f[1], site, rest}
+		} else {
+			res[job] = childResult{f[1], "", f[2]}
 		}
-		return childResult{oc, "", detail}
 	}
-	// no result line: the process died. Keep the first lines of the Go crash report.
-	if strings.Contains(s, "panic:") || strings.Contains(s, "SIGSEGV") {
-		childCrashes.Add(1)
-		return childResult{"CRASH", libSite(s), crashSummary(s)}
+	return res, s
+}
+
+func crashed(raw string) bool {
+	return strings.Contains(raw, "panic:") || strings.Contains(raw, "SIGSEGV") || strings.Contains(raw, "fatal error:")
+}
+
+// runBatch runs n jobs in child processes. mk(lo, hi) builds the child spec and stdin for the jobs lo..hi-1 (job
+// numbers in the child's output are relative to lo). When a child dies, the job that killed it is the first one
+// without a result line OR the last one with a result (a panicking errgroup worker signals completion while it
+// unwinds, so the caller may report a result before the runtime has terminated the process): both are re-run
+// alone in careful mode (the child waits before reporting), then the batch resumes behind them.
+func runBatch(n int, mk func(lo, hi int) (spec string, stdin []byte)) []childResult {
+	out := make([]childResult, n)
+	single := func(i int) childResult {
+		spec, stdin := mk(i, i+1)
+		res, raw := spawn(spec, stdin, true)
+		childJobs.Add(1)
+		if r, ok := res[0]; ok && !crashed(raw) {
+			return r
+		}
+		if crashed(raw) {
+			childCrashes.Add(1)
+			return childResult{"CRASH", libSite(raw), crashSummary(raw)}
+		}
+		panic(engine.HarnessError{Msg: "child process stopped without a result and without a crash report: " + oneLine(raw)})
 	}
-	panic(engine.HarnessError{Msg: "child process produced no result: " + oneLine(s)})
+	for lo := 0; lo < n; {
+		spec, stdin := mk(lo, n)
+		res, raw := spawn(spec, stdin, false)
+		i := lo
+		for ; i < n; i++ {
+			r, ok := res[i-lo]
+			if !ok {
+				break
+			}
+			out[i] = r
+		}
+		childJobs.Add(int64(i - lo))
+		if !crashed(raw) {
+			if i == n {
+				break
+			}
+			panic(engine.HarnessError{Msg: "child process stopped without a result and without a crash report: " + oneLine(raw)})
+		}
+		if i > lo {
+			out[i-1] = single(i - 1)
+		}
+		if i < n {
+			out[i] = single(i)
+		}
+		lo = i + 1
+	}
+	return out
 }
 
 func crashSummary(s string) string {
